@@ -1,46 +1,177 @@
-"""Independent decoder of the pinned SoftHSMv2 file back-end format (prototype)."""
-import struct, hashlib
+"""Independent decoder of the pinned SoftHSMv2 FILE back-end format.  Written from the on-disk format,
+never calls the library.
+
+object file  := generation(u64 BE) record*
+record       := type(u64 BE) kind(u64 BE) value
+kind 1 bool  := 1 byte            (the pinned writer emits 0xFF = true, 0x00 = false)
+kind 2 ulong := u64 BE
+kind 3 bytes := len(u64 BE) data
+kind 4 map   := total(u64 BE) ( type(u64) kind(u64) value )*      kinds 1,2,3,5 only; total = bytes that follow
+kind 5 mechs := count(u64 BE) mech(u64 BE)*
+
+Python values: bool / int / bytes / dict {type: value} (attribute map) / sorted list of int (mechanism set).
+
+Classification of arbitrary bytes (C16 needs it):
+  'empty'         0 bytes
+  'valid'         generation + complete records, nothing left over
+  'valid-prefix'  a proper prefix of a well-formed file: data ends inside the generation or inside a record
+                  (the complete records before the cut are returned)
+  'invalid'       structurally wrong: unknown kind, attribute map whose entries overrun/underrun its length
+"""
+import os, struct
+
 BOOL, ULONG, BYTES, ATTRMAP, MECHSET = 1, 2, 3, 4, 5
-class Bad(Exception): pass
-def _u64(b, o):
-    if o + 8 > len(b): raise Bad('truncated ulong at %d' % o)
+KIND_NAMES = {BOOL: 'bool', ULONG: 'ulong', BYTES: 'bytes', ATTRMAP: 'attrmap', MECHSET: 'mechset'}
+# vendor attributes of token.object (OSAttributes.h: CKA_VENDOR_DEFINED + 'SH' + n)
+CKA_VENDOR_SOFTHSM = 0x80000000 + 0x5348
+CKA_OS_TOKENLABEL, CKA_OS_TOKENSERIAL, CKA_OS_TOKENFLAGS, CKA_OS_SOPIN, CKA_OS_USERPIN = [CKA_VENDOR_SOFTHSM + i for i in range(1, 6)]
+
+class Bad(Exception): pass          # structural error
+class Trunc(Exception): pass        # ran out of data (the bytes are a prefix)
+
+def _u64(b, o, end=None):
+    end = len(b) if end is None else end
+    if o + 8 > end: raise Trunc('truncated u64 at %d' % o)
     return struct.unpack_from('>Q', b, o)[0], o + 8
-def _bytes(b, o):
-    n, o = _u64(b, o)
-    if o + n > len(b): raise Bad('truncated bytes at %d (len %d)' % (o, n))
-    return b[o:o + n], o + n
-def _mechset(b, o):
-    n, o = _u64(b, o); s = []
-    for _ in range(n): v, o = _u64(b, o); s.append(v)
-    return sorted(s), o
-def _attrmap(b, o):
-    total, o = _u64(b, o); end = o + total; m = {}
-    if end > len(b): raise Bad('truncated attribute map')
-    while o < end:
-        t, o = _u64(b, o); k, o = _u64(b, o)
-        if k == 1: m[t] = bool(b[o]); o += 1
-        elif k == 2: m[t], o = _u64(b, o)
-        elif k == 3: m[t], o = _bytes(b, o)
-        elif k == 5: m[t], o = _mechset(b, o)
-        else: raise Bad('bad kind %d in attribute map' % k)
-    return m, o
-def decode(b):
-    """-> ('empty'|'valid'|'invalid', generation, {attrtype: value}, bytes_consumed)"""
-    if len(b) == 0: return 'empty', None, {}, 0
+def _bool(b, o, warn, end=None):
+    end = len(b) if end is None else end
+    if o + 1 > end: raise Trunc('truncated bool at %d' % o)
+    v = b[o]
+    if v not in (0x00, 0xFF): warn.append('non-canonical boolean byte 0x%02x at %d' % (v, o))
+    elif v == 0xFF: pass
+    return (v != 0), o + 1
+def _bytes(b, o, end=None):
+    end = len(b) if end is None else end
+    n, o = _u64(b, o, end)
+    if n > end - o: raise Trunc('truncated byte string at %d (len %d, have %d)' % (o, n, end - o))
+    return bytes(b[o:o + n]), o + n
+def _mechset(b, o, warn, end=None):
+    end = len(b) if end is None else end
+    n, o = _u64(b, o, end)
+    if n > (end - o) // 8: raise Trunc('truncated mechanism set at %d (count %d)' % (o, n))
+    s = list(struct.unpack_from('>%dQ' % n, b, o)) if n else []
+    if sorted(set(s)) != s: warn.append('mechanism set not strictly ascending at %d' % o)
+    return sorted(set(s)), o + 8 * n
+def _attrmap(b, o, warn):
+    total, o = _u64(b, o)
+    if total > len(b) - o: raise Trunc('truncated attribute map at %d (len %d)' % (o, total))
+    end = o + total; m = {}
     try:
-        gen, o = _u64(b, 0); attrs = {}
+        while o < end:
+            t, o = _u64(b, o, end); k, o = _u64(b, o, end)
+            if k == BOOL: v, o = _bool(b, o, warn, end)
+            elif k == ULONG: v, o = _u64(b, o, end)
+            elif k == BYTES: v, o = _bytes(b, o, end)
+            elif k == MECHSET: v, o = _mechset(b, o, warn, end)
+            else: raise Bad('bad kind %d inside attribute map' % k)
+            if t in m: warn.append('duplicate type 0x%x inside attribute map' % t)
+            m[t] = v
+    except Trunc as e:
+        raise Bad('attribute map entries overrun its length: %s' % e)    # the map itself is complete, so this is not a cut
+    return m, end
+
+class Parsed:
+    """result of parse(): status, generation, attrs {type: value}, kinds {type: kind}, consumed (offset after the last
+    complete record), records (complete records), error (text or None), warnings (non-canonical but readable encodings)"""
+    def __init__(s): s.status = 'empty'; s.generation = None; s.attrs = {}; s.kinds = {}; s.consumed = 0; s.records = 0; s.error = None; s.warnings = []; s.size = 0
+    def __repr__(s): return '<objfile %s gen=%s attrs=%d consumed=%d/%d%s>' % (s.status, s.generation, len(s.attrs), s.consumed, s.size, (' ' + s.error) if s.error else '')
+
+def parse(b):
+    p = Parsed(); p.size = len(b)
+    if len(b) == 0: return p
+    try:
+        p.generation, o = _u64(b, 0); p.consumed = o
         while o < len(b):
             t, o = _u64(b, o); k, o = _u64(b, o)
-            if k == BOOL:
-                if o >= len(b): raise Bad('truncated bool')
-                attrs[t] = bool(b[o]); o += 1
-            elif k == ULONG: attrs[t], o = _u64(b, o)
-            elif k == BYTES: attrs[t], o = _bytes(b, o)
-            elif k == MECHSET: attrs[t], o = _mechset(b, o)
-            elif k == ATTRMAP: attrs[t], o = _attrmap(b, o)
-            else: raise Bad('bad kind %d' % k)
-        return 'valid', gen, attrs, o
-    except Bad as e:
-        return 'invalid', None, {'error': str(e)}, 0
-# vendor attributes of token.object
-CKA_OS_TOKENLABEL, CKA_OS_TOKENSERIAL, CKA_OS_TOKENFLAGS, CKA_OS_SOPIN, CKA_OS_USERPIN = [0x80000000 | 0x5348 << 16 | i if False else None for i in range(5)]
+            if k == BOOL: v, o = _bool(b, o, p.warnings)
+            elif k == ULONG: v, o = _u64(b, o)
+            elif k == BYTES: v, o = _bytes(b, o)
+            elif k == MECHSET: v, o = _mechset(b, o, p.warnings)
+            elif k == ATTRMAP: v, o = _attrmap(b, o, p.warnings)
+            else: raise Bad('bad kind %d for type 0x%x at %d' % (k, t, o - 8))
+            if t in p.attrs: p.warnings.append('duplicate type 0x%x' % t)
+            p.attrs[t] = v; p.kinds[t] = k; p.consumed = o; p.records += 1
+        p.status = 'valid'
+    except Trunc as e: p.status = 'valid-prefix'; p.error = str(e)
+    except Bad as e: p.status = 'invalid'; p.error = str(e)
+    return p
+
+def classify(b): return parse(b).status
+
+def decode(b):
+    """compatibility form: -> (status, generation, {type: value}, bytes_consumed); for 'invalid' the dict holds {'error': text}"""
+    p = parse(b)
+    if p.status == 'invalid': return 'invalid', None, {'error': p.error}, 0
+    return p.status, p.generation, p.attrs, p.consumed
+
+# ---------------------------------------------------------------- encoder (for tests of the decoder and for fuzz seeds)
+def _enc_value(v, nested=False):
+    if isinstance(v, bool): return BOOL, (b'\xff' if v else b'\x00')
+    if isinstance(v, int): return ULONG, struct.pack('>Q', v)
+    if isinstance(v, (bytes, bytearray)): return BYTES, struct.pack('>Q', len(v)) + bytes(v)
+    if isinstance(v, list): return MECHSET, struct.pack('>Q', len(v)) + b''.join(struct.pack('>Q', x) for x in sorted(v))
+    if isinstance(v, dict) and not nested:
+        body = b''
+        for t in sorted(v):
+            k, e = _enc_value(v[t], True); body += struct.pack('>QQ', t, k) + e
+        return ATTRMAP, struct.pack('>Q', len(body)) + body
+    raise TypeError(v)
+def encode(generation, attrs):
+    out = struct.pack('>Q', generation)
+    for t in sorted(attrs):
+        k, e = _enc_value(attrs[t]); out += struct.pack('>QQ', t, k) + e
+    return out
+
+# ---------------------------------------------------------------- token.object and token directories
+class TokenInfo:
+    """label (32 bytes, blank padded as stored), serial (16 bytes), flags (int), so_blob / user_blob (bytes or None)"""
+    def __init__(s, attrs):
+        s.label = attrs.get(CKA_OS_TOKENLABEL); s.serial = attrs.get(CKA_OS_TOKENSERIAL); s.flags = attrs.get(CKA_OS_TOKENFLAGS)
+        s.so_blob = attrs.get(CKA_OS_SOPIN) or None; s.user_blob = attrs.get(CKA_OS_USERPIN) or None
+        s.extra = {t: v for t, v in attrs.items() if not (CKA_OS_TOKENLABEL <= t <= CKA_OS_USERPIN)}
+    def well_formed(s):
+        return isinstance(s.label, bytes) and isinstance(s.serial, bytes) and isinstance(s.flags, int) and not isinstance(s.flags, bool)
+    def __repr__(s): return '<token label=%r serial=%r flags=0x%x so=%s user=%s>' % (s.label, s.serial, s.flags or 0, s.so_blob and len(s.so_blob), s.user_blob and len(s.user_blob))
+
+def decode_token_object(b):
+    """-> (Parsed, TokenInfo or None)"""
+    p = parse(b)
+    if p.status != 'valid': return p, None
+    return p, TokenInfo(p.attrs)
+
+def _read(path):
+    with open(path, 'rb') as f: return f.read()
+
+class TokenDir:
+    """One <tokendir>/<uuid>/ of the file back-end: .info (TokenInfo or None), .token (Parsed of token.object),
+    .objects {file name: Parsed}, .others [names of files that are neither *.object nor *.lock nor 'generation']"""
+    def __init__(s, path):
+        s.path = path; s.objects = {}; s.others = []; s.locks = []; s.token = None; s.info = None; s.generation_file = None
+        for n in sorted(os.listdir(path)):
+            f = os.path.join(path, n)
+            if n == 'token.object': s.token, s.info = decode_token_object(_read(f))
+            elif n.endswith('.object'): s.objects[n] = parse(_read(f))
+            elif n.endswith('.lock'): s.locks.append(n)
+            elif n == 'generation': s.generation_file = _read(f)
+            else: s.others.append(n)
+
+def read_store(tokendir):
+    """-> [TokenDir] for every sub-directory of directories.tokendir that holds a token.object"""
+    out = []
+    for n in sorted(os.listdir(tokendir)):
+        d = os.path.join(tokendir, n)
+        if os.path.isdir(d) and os.path.exists(os.path.join(d, 'token.object')): out.append(TokenDir(d))
+    return out
+
+def _selftest():
+    a = {0: 3, 1: True, 2: False, 3: b'label', 0x11: b'', 0x40000600: [1, 0x1082, 0x1087], 0x40000211: {0x100: 0x1f, 0x162: False, 3: b'inner', 0x40000600: [5]}}
+    e = encode(7, a); p = parse(e); assert p.status == 'valid' and p.generation == 7 and p.attrs == a and not p.warnings, p
+    assert classify(b'') == 'empty' and classify(e[:8]) == 'valid' and parse(e[:8]).attrs == {}
+    for cut in range(1, len(e)):
+        q = parse(e[:cut]); assert q.status in ('valid', 'valid-prefix'), (cut, q)
+        if q.status == 'valid': assert encode(7, q.attrs) == e[:cut]
+    assert classify(e + struct.pack('>QQ', 9, 6)) == 'invalid' and classify(e + b'\x00') == 'valid-prefix'
+    bad = encode(1, {}) + struct.pack('>QQQ', 0x40000211, ATTRMAP, 18) + struct.pack('>QQ', 1, BOOL) + b'\xff'   # map announces 18 bytes, 17 present
+    assert classify(bad) == 'valid-prefix' and classify(bad + b'\0') == 'invalid'   # cut inside the map / stray byte inside a complete map
+    assert parse(struct.pack('>QQQ', 1, 1, BOOL) + b'\x01').warnings
+_selftest()
